@@ -255,4 +255,283 @@ def SharedMutex_Guard : String :=
 def SharedMutex_GuardShared : String :=
   "GuardShared() { return init(init((*this))) }"
 
+def FairThreadPool_ctor : String :=
+  "FairThreadPool(threads) { _workers.reserve(threads); for (var i = 0; (i != threads); (++i)) { _workers.emplace_back(lambda{ Loop() }) } }"
+
+def FairThreadPool_Submit : String :=
+  "Submit(job) { var lock = init(_m); if (WasStop()) { lock.unlock(); job.Drop(); return  }; _jobs.PushBack(job); (_jobs_count += 4); lock.unlock(); _idle.notify_one() }"
+
+def FairThreadPool_SoftStop : String :=
+  "SoftStop() { var lock = init(_m); if (NoJobs()) { Stop(move(lock)) } else { (_jobs_count |= 2) } }"
+
+def FairThreadPool_Stop : String :=
+  "Stop() { Stop(init(_m)) }"
+
+def FairThreadPool_StopLocked : String :=
+  "Stop(lock) { (_jobs_count |= 1); lock.unlock(); _idle.notify_all() }"
+
+def FairThreadPool_HardStop : String :=
+  "HardStop() { var lock = init(_m); var jobs = init(move(_jobs)); Stop(move(lock)); while ((!jobs.Empty())) { var job = jobs.PopFront(); cast(job).Drop() } }"
+
+def FairThreadPool_Wait : String :=
+  "Wait() { forrange { worker.join() }; _workers.clear() }"
+
+def FairThreadPool_Loop : String :=
+  "Loop() { var lock = init(_m); while (true) { while ((!_jobs.Empty())) { var job = _jobs.PopFront(); lock.unlock(); cast(job).Call(); lock.lock(); (_jobs_count -= 4) }; if ((NoJobs() && WantStop())) { return Stop(move(lock)) }; if (WasStop()) { return  }; _idle.wait(lock) } }"
+
+def FairThreadPool_WasStop : String :=
+  "WasStop() { return ((_jobs_count & 1) != 0) }"
+
+def FairThreadPool_WantStop : String :=
+  "WantStop() { return ((_jobs_count & 2) != 0) }"
+
+def FairThreadPool_NoJobs : String :=
+  "NoJobs() { return ((_jobs_count >> 2) == 0) }"
+
+def FairThreadPool_Alive : String :=
+  "Alive() { var lock = init(_m); return (!WasStop()) }"
+
+def List_MoveCtor : String :=
+  "List(other) { if (((this == (&other)) || other.Empty())) { return  }; (_head.next = exchange(other._head.next, nullptr)); (_tail = exchange(other._tail, (&other._head))) }"
+
+def List_PushBack : String :=
+  "PushBack(node) { (node.next = nullptr); (_tail.next = (&node)); (_tail = (&node)) }"
+
+def List_Empty : String :=
+  "Empty() { return (_head.next == nullptr) }"
+
+def List_PopFront : String :=
+  "PopFront() { var node = _head.next; (_head.next = node.next); if ((_head.next == nullptr)) { (_tail = (&_head)) }; return (*node) }"
+
+def FiberMutex_lock : String :=
+  "lock() { while (_occupied) { _queue.Wait(cast(init())) }; (_occupied = true); OnSync(this, kLock, 1) }"
+
+def FiberMutex_try_lock : String :=
+  "try_lock() { if (_occupied) { OnSync(this, kTryLock, 0); return false }; (_occupied = true); OnSync(this, kTryLock, 1); return true }"
+
+def FiberMutex_unlock : String :=
+  "unlock() { (_occupied = false); OnSync(this, kUnlock, 1); _queue.NotifyOne() }"
+
+def FiberTimedMutex_TimedWaitHelper : String :=
+  "TimedWaitHelper(timeout) { var r = true; if (_occupied) { (r = (_queue.Wait(timeout) == Ready)) }; if (r) { (_occupied = true) }; return r }"
+
+def FiberTimedMutex_try_lock_for : String :=
+  "try_lock_for(timeout_duration) { return TimedWaitHelper(timeout_duration) }"
+
+def FiberTimedMutex_try_lock_until : String :=
+  "try_lock_until(timeout_time) { return TimedWaitHelper(timeout_time) }"
+
+def FiberRecursiveMutex_lock : String :=
+  "lock() { if (((_occupied_count != 0) && (_owner_id != GetId()))) { _queue.Wait(cast(init())) }; LockHelper() }"
+
+def FiberRecursiveMutex_try_lock : String :=
+  "try_lock() { if (((_occupied_count != 0) && (_owner_id != GetId()))) { return false }; LockHelper(); return true }"
+
+def FiberRecursiveMutex_unlock : String :=
+  "unlock() { (_occupied_count--); if ((_occupied_count == 0)) { (_owner_id = 0) } }"
+
+def FiberRecursiveMutex_LockHelper : String :=
+  "LockHelper() { (_occupied_count++); (_owner_id = GetId()) }"
+
+def FiberRecursiveTimedMutex_TimedWaitHelper : String :=
+  "TimedWaitHelper(timeout) { var r = true; if (((_occupied_count != 0) && (_owner_id != GetId()))) { (r = (_queue.Wait(timeout) == Ready)) }; if (r) { LockHelper() }; return r }"
+
+def FiberRecursiveTimedMutex_try_lock_for : String :=
+  "try_lock_for(timeout_duration) { return TimedWaitHelper(timeout_duration) }"
+
+def FiberRecursiveTimedMutex_try_lock_until : String :=
+  "try_lock_until(timeout_time) { return TimedWaitHelper(timeout_time) }"
+
+def FiberSharedMutex_lock : String :=
+  "lock() { if (_occupied) { _exclusive_queue.Wait(cast(init())) }; LockHelper() }"
+
+def FiberSharedMutex_try_lock : String :=
+  "try_lock() { if (_occupied) { return false }; LockHelper(); return true }"
+
+def FiberSharedMutex_unlock : String :=
+  "unlock() { var unlock_shared = ((!_shared_queue.Empty()) && (_exclusive_queue.Empty() || (GetRandNumber(2) == 0))); (_occupied = false); if (unlock_shared) { _shared_queue.NotifyAll() } else { _exclusive_queue.NotifyOne() } }"
+
+def FiberSharedMutex_lock_shared : String :=
+  "lock_shared() { if ((_occupied && _exclusive_mode)) { _exclusive_queue.Wait(cast(init())) }; SharedLockHelper() }"
+
+def FiberSharedMutex_try_lock_shared : String :=
+  "try_lock_shared() { if ((_occupied && _exclusive_mode)) { return false }; SharedLockHelper(); return true }"
+
+def FiberSharedMutex_unlock_shared : String :=
+  "unlock_shared() { (_shared_owners_count--); if ((_shared_owners_count == 0)) { (_occupied = false); _exclusive_queue.NotifyOne() } }"
+
+def FiberSharedMutex_LockHelper : String :=
+  "LockHelper() { (_occupied = true); (_exclusive_mode = true) }"
+
+def FiberSharedMutex_SharedLockHelper : String :=
+  "SharedLockHelper() { (_occupied = true); (_exclusive_mode = false); (_shared_owners_count++) }"
+
+def FiberSharedTimedMutex_TimedWaitHelper : String :=
+  "TimedWaitHelper(timeout, exclusive) { var r = true; if ((_occupied && (exclusive || _exclusive_mode))) { if (exclusive) { (r = (_exclusive_queue.Wait(timeout) == Ready)) } else { (r = (_shared_queue.Wait(timeout) == Ready)) } }; if (r) { SharedLockHelper() }; return r }"
+
+def FiberSharedTimedMutex_try_lock_for : String :=
+  "try_lock_for(timeout_duration) { return TimedWaitHelper(timeout_duration, true) }"
+
+def FiberSharedTimedMutex_try_lock_until : String :=
+  "try_lock_until(timeout_time) { return TimedWaitHelper(timeout_time, true) }"
+
+def FiberSharedTimedMutex_try_lock_shared_for : String :=
+  "try_lock_shared_for(timeout_duration) { return TimedWaitHelper(timeout_duration, false) }"
+
+def FiberSharedTimedMutex_try_lock_shared_until : String :=
+  "try_lock_shared_until(timeout_time) { return TimedWaitHelper(timeout_time, false) }"
+
+def FiberCondVar_notify_one : String :=
+  "notify_one() { _queue.NotifyOne() }"
+
+def FiberCondVar_notify_all : String :=
+  "notify_all() { _queue.NotifyAll() }"
+
+def FiberCondVar_wait : String :=
+  "wait(lock) { WaitImpl(lock, cast(init())) }"
+
+def FiberCondVar_WaitImpl : String :=
+  "WaitImpl(lock, timeout) { InjectFault(); lock.unlock(); var status = _queue.Wait(timeout); lock.lock(); InjectFault(); return status }"
+
+def FiberCondVar_WaitImplWithPredicate : String :=
+  "WaitImplWithPredicate(lock, timeout, predicate) { while ((!predicate())) { if ((WaitImpl(lock, timeout) == Timeout)) { break } }; ifc ((!is_same_v)) { return predicate() } else { return true } }"
+
+def FiberCondVar_wait_for : String :=
+  "wait_for(lock, duration) { return WaitImpl(lock, duration) } || wait_for(lock, duration, predicate) { return WaitImplWithPredicate(lock, duration, predicate) }"
+
+def FiberCondVar_wait_until : String :=
+  "wait_until(lock, time_point) { return WaitImpl(lock, time_point) } || wait_until(lock, time_point, predicate) { return WaitImplWithPredicate(lock, time_point, predicate) }"
+
+def FiberQueue_WaitNoTimeout : String :=
+  "Wait(_) { var fiber = Current(); _queue.PushBack(cast(fiber)); OnSync(this, kPark, 0); Suspend(); OnSync(this, kWake, 0); return Ready }"
+
+def FiberQueue_WaitTimed : String :=
+  "Wait(duration) { return Wait((duration + now())) } || Wait(time_point) { var fiber = Current(); var queue_node = cast(fiber); _queue.PushBack(queue_node); OnSync(this, kParkTimed, 0); var scheduler = GetScheduler(); scheduler.SleepPreemptive(duration_cast(time_point.time_since_epoch()).count()); var res = queue_node.Erase(); OnSync(this, kWake, (res ? 1 : 0)); return (res ? Timeout : Ready) }"
+
+def FiberQueue_NotifyAll : String :=
+  "NotifyAll() { OnSync(this, kNotifyAll, (_queue.Empty() ? 0 : 1)); var all = init(move(_queue)); operator=(_queue, init()); while ((!all.Empty())) { var fiber = cast(cast(all.PopBack())); ScheduleAndRemove(fiber) } }"
+
+def FiberQueue_NotifyOne : String :=
+  "NotifyOne() { OnSync(this, kNotifyOne, (_queue.Empty() ? 0 : 1)); if (_queue.Empty()) { return  }; var fiber = cast(cast(PollRandomElementFromList(_queue))); ScheduleAndRemove(fiber) }"
+
+def FiberQueue_ScheduleAndRemove : String :=
+  "ScheduleAndRemove(node) { if ((node.GetState() != Waiting)) { cast(node).Erase(); GetScheduler().Schedule(node) } }"
+
+def FiberThread_join : String :=
+  "join() { if ((_impl == nullptr)) { throw(init(make_error_code(no_such_process))) }; if ((!joinable())) { throw(init(make_error_code(resource_deadlock_would_occur))) }; while ((_impl.GetState() != Completed)) { _impl.SetJoiningFiber(Current()); Suspend() }; AfterJoinOrDetach() }"
+
+def FiberThread_AfterJoinOrDetach : String :=
+  "AfterJoinOrDetach() { if ((_impl.GetState() == Completed)) { delete(_impl) } else { _impl.SetThreadDead() }; (_impl = nullptr) }"
+
+def FiberBase_Exit : String :=
+  "Exit() { (_state = Completed); if (((_joining_fiber != nullptr) && _thread_alive)) { ScheduleFiber(_joining_fiber) }; _context.Exit(_caller_context) }"
+
+def FiberBase_Resume : String :=
+  "Resume() { if ((_state == Completed)) { return  }; (_state = Running); _caller_context.SwitchTo(_context); if (CXXRewrittenBinaryOperator((!operator==(_exception, init(nullptr))))) { rethrow_exception(init(_exception)) } }"
+
+def FiberBase_Suspend : String :=
+  "Suspend() { (_state = Suspended); _context.SwitchTo(_caller_context) }"
+
+def FiberBase_GetTLS : String :=
+  "GetTLS(id, defaults) { var it = _tls.find(id); if (operator==(it, _tls.end())) { return operator[](defaults, id) }; return operator->(it).second }"
+
+def FiberBase_SetTLS : String :=
+  "SetTLS(id, value) { (operator[](_tls, id) = value) }"
+
+def FiberTls_GetImpl : String :=
+  "GetImpl(i) { var fiber = Current(); return fiber.GetTLS(i, GetMap()) }"
+
+def FiberTls_Set : String :=
+  "Set(new_value, i) { var fiber = Current(); fiber.SetTLS(i, new_value) }"
+
+def FiberTls_SetDefault : String :=
+  "SetDefault(new_value, i) { (operator[](GetMap(), i) = new_value) }"
+
+def FiberTlsProxy_assign_ptr : String :=
+  "operator=(value) { Set(value, _i); return (*this) }"
+
+def FiberTlsProxy_assign_move : String :=
+  "operator=(other) { (_i = other._i); return (*this) }"
+
+def FiberTlsProxy_assign_copy : String :=
+  "operator=(other) { if ((Get() == other.Get())) { return (*this) }; SetDefault(GetImpl(other._i), _i); return (*this) }"
+
+def FiberTlsProxy_assign_conv : String :=
+  "operator=(other) { (_i = other._i); return (*this) } || operator=(other) { SetDefault(GetImpl(other._i), _i); return (*this) }"
+
+def FiberTlsProxy_ctor_default : String :=
+  "ThreadLocalPtrProxy<Type>() {  }"
+
+def FiberTlsProxy_ctor_ptr : String :=
+  "ThreadLocalPtrProxy<Type>(value) { if ((value != nullptr)) { SetDefault(value, _i) } }"
+
+def FiberTlsProxy_ctor_copy : String :=
+  "ThreadLocalPtrProxy<Type>(other) { SetDefault(GetImpl(other._i), _i) }"
+
+def FiberTlsProxy_Get : String :=
+  "Get() { return cast(GetImpl(_i)) }"
+
+def FiberSched_Sleep : String :=
+  "Sleep(ns) { if ((ns <= GetTimeNs())) { return  }; var sleep_list = operator[](_sleep_list, ns); var fiber = sCurrent; sleep_list.PushBack(cast(fiber)); Suspend() }"
+
+def FiberSched_SleepPreemptive : String :=
+  "SleepPreemptive(ns) { (ns += GetRandNumber(GetFaultSleepTime())); Sleep(ns); if ((_time <= ns)) { var it = _sleep_list.find(ns); if (operator->(it).second.Empty()) { _sleep_list.erase(ns) } } }"
+
+def FiberSched_Schedule : String :=
+  "Schedule(fiber) { fiber.SetState(Waiting); _queue.PushBack(cast(fiber)); if ((!_running)) { (_running = true); RunLoop(); (_running = false) } }"
+
+def FiberSched_RescheduleCurrent : String :=
+  "RescheduleCurrent() { if ((sCurrent == nullptr)) { return  }; var fiber = sCurrent; GetScheduler()._queue.PushBack(cast(fiber)); fiber.Suspend() }"
+
+def FiberSched_Suspend : String :=
+  "Suspend() { var fiber = sCurrent; fiber.Suspend() }"
+
+def FiberThisThread_sleep : String :=
+  "sleep_until(sleep_time) { var timeout = duration_cast(sleep_time.time_since_epoch()).count(); GetScheduler().Sleep(timeout) }"
+
+def FiberThisThread_sleep_for : String :=
+  "sleep_for(sleep_duration) { sleep_until((now() + sleep_duration)) }"
+
+def FaultMutex_lock : String :=
+  "lock() { InjectFault(); lock(); InjectFault() }"
+
+def FaultMutex_try_lock : String :=
+  "try_lock() { InjectFault(); var r = try_lock(); InjectFault(); return r }"
+
+def FaultMutex_unlock : String :=
+  "unlock() { InjectFault(); unlock(); InjectFault() }"
+
+def FaultTimedMutex_try_lock_for : String :=
+  "try_lock_for(timeout_duration) { InjectFault(); var r = try_lock_for(timeout_duration); InjectFault(); return r }"
+
+def FaultTimedMutex_try_lock_until : String :=
+  "try_lock_until(timeout_time) { InjectFault(); var r = try_lock_until(timeout_time); InjectFault(); return r }"
+
+def FaultSharedMutex_lock_shared : String :=
+  "lock_shared() { InjectFault(); lock_shared(); InjectFault() }"
+
+def FaultSharedMutex_try_lock_shared : String :=
+  "try_lock_shared() { InjectFault(); var r = try_lock_shared(); InjectFault(); return r }"
+
+def FaultSharedMutex_unlock_shared : String :=
+  "unlock_shared() { InjectFault(); unlock_shared(); InjectFault() }"
+
+def FaultSharedTimedMutex_try_lock_for : String :=
+  "try_lock_for(timeout_duration) { InjectFault(); var r = try_lock_for(timeout_duration); InjectFault(); return r }"
+
+def FaultSharedTimedMutex_try_lock_shared_for : String :=
+  "try_lock_shared_for(timeout_duration) { InjectFault(); var r = try_lock_shared_for(timeout_duration); InjectFault(); return r }"
+
+def FaultCondVar_wait : String :=
+  "wait(lock) { var [..] = From(lock); InjectFault(); wait(impl_lock); InjectFault(); (lock = From(mutex, impl_lock)) }"
+
+def FaultCondVar_wait_for : String :=
+  "wait_for(lock, rel_time) { var [..] = From(lock); InjectFault(); var r = wait_for(impl_lock, rel_time); InjectFault(); (lock = From(mutex, impl_lock)); return CVStatusFrom(r) } || wait_for(lock, rel_time, stop_waiting) { var [..] = From(lock); InjectFault(); var r = wait_for(impl_lock, rel_time, forward(stop_waiting)); InjectFault(); (lock = From(mutex, impl_lock)); return r }"
+
+def FaultCondVar_notify_one : String :=
+  "notify_one() { InjectFault(); notify_one(); InjectFault() }"
+
+def FaultCondVar_notify_all : String :=
+  "notify_all() { InjectFault(); notify_all(); InjectFault() }"
+
 end Yaclib.Skeletons
